@@ -2093,6 +2093,7 @@ func (d *dryRunner) shrink(ops []string, want string) []string {
 func main() {
 	r := hx.Start()
 	r.Rule = "random histories of new/next/release/crash(idle|read|write|relwrite)/fnext(get|set)/frelease (injected store errors)/mark/par/parrel (Next racing Release, slow store writes)/chist (recorded concurrent history of Next racing Release + restart, judged by the Lean trace predicate of C07_concurrent_*) over intervals {1,2,3,5,2^32}; every fifth case at the end of the number space (intervals up to 2^64-1: leases cut off at MaxUint64, exhaustion errors); the sequence lives in a sub-view of a non-root mapdb view, 'sibling' opens and writes sibling views, 'parfr' runs concurrent Next with foreign readers of another key on the same handle; " +
+		"up to four sequences with different keys and intervals over ONE store handle (k2/k3/k4), requests of other keys while a request is parked inside one of its store calls (nest/nestg: on top of the wrapper stack or inside the access callback of a debug layer; nest under GOMAXPROCS(1)), all keys concurrently (parm); random wrapper stacks (cfg stack: debug.New without callback / with any command filter, flushkv, realm views made through the wrappers, nested), faults by injected errors, by shutting down a closable layer or the mapdb itself (closedb); other users of the store (foreign: Set/Delete/DeletePrefix/Clear/Batched/Iterate on other keys, the parent view and sibling views), also concurrently (parfr, parm); " +
 		"non-trivial = at least two restarts/crashes and two numbers handed out; distinct by sha256 of the op lines"
 	if lines := r.ReplayLines(); lines != nil {
 		runCase(r, 0, lines)
